@@ -27,6 +27,28 @@ type CMap struct {
 	// Actual byte width observed in bfchar/bfrange source codes
 	// This may differ from byteWidth when CMaps use shorter codes than codespacerange allows
 	actualByteWidth int
+
+	// All declared codespace ranges. When they have different byte widths
+	// (e.g. <00>-<80> and <8140>-<9FFC>) codes are matched against them
+	codeSpaces []codeSpaceRange
+}
+
+// codeSpaceRange is one <low> <high> pair of a codespacerange section
+type codeSpaceRange struct {
+	low, high []byte
+}
+
+// contains reports whether code lies within the range, byte by byte
+func (r codeSpaceRange) contains(code []byte) bool {
+	if len(code) != len(r.low) {
+		return false
+	}
+	for i, b := range code {
+		if b < r.low[i] || b > r.high[i] {
+			return false
+		}
+	}
+	return true
 }
 
 // CMapRange represents a range of character code to Unicode mappings
@@ -139,7 +161,7 @@ func (cm *CMap) parseCodeSpaceRange(content string) error {
 			startIdx = endIdx + 1
 		}
 
-		if len(hexStrings) >= 2 {
+		if len(hexStrings) >= 2 && cm.byteWidth == 0 {
 			// Determine byte width from first hex string length
 			hexLen := len(hexStrings[0])
 			// Each 2 hex digits = 1 byte
@@ -147,7 +169,15 @@ func (cm *CMap) parseCodeSpaceRange(content string) error {
 			if hexLen%2 != 0 {
 				cm.byteWidth = (hexLen + 1) / 2
 			}
-			break // We got what we needed
+		}
+
+		// Remember every range (needed for mixed-width code spaces)
+		for i := 0; i+1 < len(hexStrings); i += 2 {
+			low, err1 := hex.DecodeString(hexStrings[i])
+			high, err2 := hex.DecodeString(hexStrings[i+1])
+			if err1 == nil && err2 == nil && len(low) > 0 && len(low) == len(high) {
+				cm.codeSpaces = append(cm.codeSpaces, codeSpaceRange{low: low, high: high})
+			}
 		}
 	}
 
@@ -421,6 +451,12 @@ func (cm *CMap) LookupString(data []byte) string {
 		return string(data)
 	}
 
+	// Code space with ranges of different widths: match each code against
+	// the declared ranges
+	if cm.hasMixedWidths() {
+		return cm.lookupStringByCodeSpace(data)
+	}
+
 	// Determine the effective byte width to use
 	// Some CMaps declare a wide codespacerange (e.g., <0000><FFFF> = 2 bytes)
 	// but only have bfchar entries with shorter codes (e.g., <20> = 1 byte)
@@ -464,6 +500,55 @@ func (cm *CMap) LookupString(data []byte) string {
 			result.WriteRune(rune(code1))
 		}
 		i++
+	}
+
+	return result.String()
+}
+
+// hasMixedWidths reports whether the declared codespace ranges differ in byte width
+func (cm *CMap) hasMixedWidths() bool {
+	for _, r := range cm.codeSpaces {
+		if len(r.low) != len(cm.codeSpaces[0].low) {
+			return true
+		}
+	}
+	return false
+}
+
+// lookupStringByCodeSpace decodes a string whose codes have different widths:
+// at each position the shortest byte sequence lying in a codespace range is the code
+func (cm *CMap) lookupStringByCodeSpace(data []byte) string {
+	var result strings.Builder
+
+	for i := 0; i < len(data); {
+		width := 1 // no range matches: consume one byte
+		for w := 1; w <= 4 && i+w <= len(data); w++ {
+			matched := false
+			for _, r := range cm.codeSpaces {
+				if r.contains(data[i : i+w]) {
+					matched = true
+					break
+				}
+			}
+			if matched {
+				width = w
+				break
+			}
+		}
+
+		var code uint32
+		for _, b := range data[i : i+width] {
+			code = (code << 8) | uint32(b)
+		}
+
+		if unicode := cm.Lookup(code); unicode != "" {
+			result.WriteString(unicode)
+		} else if code < 0x110000 {
+			// Fallback to direct Unicode interpretation
+			result.WriteRune(rune(code))
+		}
+
+		i += width
 	}
 
 	return result.String()
